@@ -137,14 +137,18 @@ Lemma nat2s_inj a b : nat2s a = nat2s b -> a = b.
 Proof. intros H. pose proof (s2nat_nat2s a) as E. rewrite H, s2nat_nat2s in E. congruence. Qed.
 
 (* canonical array index of RFC 6901 / repaired PathSegment.IsNumeric:
-   digits only, no leading zero unless "0" *)
+   digits only, no leading zero unless "0".  A token of more than 18 digits denotes an index of at
+   least 10^18: in Go it either overflows strconv.Atoi (then the segment is "not numeric") or is an
+   index far beyond any list; both mean "no such element", which is what None means to every caller
+   here.  (Cutting off there also keeps the unary nat out of reach of such tokens.) *)
 Definition canon_index (s : string) : option nat :=
   match la s with
   | [] => None
   | c :: r =>
       if forallb is_digit (c :: r)
       then if (Ascii.eqb c "0"%char && negb (match r with [] => true | _ => false end))
-           then None else s2nat s
+           then None
+           else if Nat.ltb 18 (List.length (c :: r)) then None else s2nat s
       else None
   end.
 
